@@ -90,6 +90,12 @@ func registerZzv(e *Engine) {
 		a := args[0].(*smt.Term)
 		return one(st, smt.Not(smt.Or(smt.FPPred(smt.OpFPIsNaN, a), smt.FPPred(smt.OpFPIsInf, a))))
 	})
+	e.reg(z+"EnableHavoc", func(c *CallCtx, st *State, args []Value) []Outcome {
+		name, _ := strArg(args[0])
+		cell := c.E.namedCell(st, "havoc:"+name, func() Value { return smt.False })
+		st.heap[cell] = smt.True
+		return one(st, nil)
+	})
 	e.reg(z+"SetMerge", func(c *CallCtx, st *State, args []Value) []Outcome {
 		c.E.Cfg.Merge = args[0].(*smt.Term).IsTrue()
 		return one(st, nil)
@@ -346,6 +352,79 @@ func registerFiles(e *Engine) {
 	}
 	e.reg(utilPkg+".WriteIntToFile", write)
 	e.reg(utilPkg+".WriteIntToFileAtomic", write)
+	// util.SafeCmdExecution for the two command forms the controller harnesses configure:
+	//   /bin/cat <file>                      -> content of the file cell (exit status 1 if unreadable)
+	//   /bin/sh -c "echo $0 > <file>" <n>    -> writes n to the file cell
+	// Harnesses that verify SafeCmdExecution itself set the named flag "cmd:real" and get the real body.
+	e.reg(utilPkg+".SafeCmdExecution", func(c *CallCtx, st *State, args []Value) []Outcome {
+		en := c.E
+		if cell, ok := en.named["cmd:real"]; ok {
+			if v, ok := st.heap[cell]; ok && v.(*smt.Term).IsTrue() {
+				return en.execFuncFV(st, c.Fn, args, nil)
+			}
+		}
+		exe, _ := strArg(args[0])
+		av := en.sliceElems(st, args[1])
+		switch {
+		case exe == "/bin/cat" && len(av) == 1:
+			p := en.pathArg(av[0], "cmd cat")
+			f := en.fileGet(st, p)
+			exists, garbage, rerr := f.F[fExists].(*smt.Term), f.F[fGarbage].(*smt.Term), f.F[fReadErr].(*smt.Term)
+			unreadable := smt.Or(smt.Not(exists), rerr)
+			sts := en.forkStates(st, []*smt.Term{smt.And(smt.Not(unreadable), smt.Not(garbage)), unreadable, smt.And(smt.Not(unreadable), garbage)})
+			var outs []Outcome
+			if sts[0] != nil {
+				outs = append(outs, Outcome{St: sts[0], Ret: Tuple{Str{Num: f.F[fValue].(*smt.Term)}, nilErr}})
+			}
+			if sts[1] != nil {
+				outs = append(outs, Outcome{St: sts[1], Ret: Tuple{Str{}, en.newError(sts[1], "exit status 1")}})
+			}
+			if sts[2] != nil {
+				outs = append(outs, Outcome{St: sts[2], Ret: Tuple{Str{S: "garbage"}, nilErr}})
+			}
+			return outs
+		case exe == "/bin/sh" && len(av) == 3:
+			script, _ := strArg(av[1])
+			const pre = "echo $0 > "
+			if a0, _ := strArg(av[0]); a0 != "-c" || !strings.HasPrefix(script, pre) {
+				break
+			}
+			p := strings.TrimPrefix(script, pre)
+			val, ok := av[2].(Str)
+			if !ok {
+				break
+			}
+			var num *smt.Term
+			if val.Num != nil {
+				num = val.Num
+			} else if txt, ok := strArg(val); ok {
+				var i int64
+				if _, err := fmt.Sscanf(txt, "%d", &i); err != nil {
+					break
+				}
+				num = smt.IntC(i)
+			} else {
+				break
+			}
+			f := en.fileGet(st, p)
+			wm := f.F[fWMode].(*smt.Term)
+			sts := en.forkStates(st, []*smt.Term{smt.Eq(wm, smt.IntC(0)), smt.Eq(wm, smt.IntC(1)), smt.Not(smt.Or(smt.Eq(wm, smt.IntC(0)), smt.Eq(wm, smt.IntC(1))))})
+			var outs []Outcome
+			if sts[0] != nil {
+				en.fileSet(sts[0], p, with(with(with(f, fExists, smt.True), fValue, num), fGarbage, smt.False))
+				outs = append(outs, Outcome{St: sts[0], Ret: Tuple{Str{}, nilErr}})
+			}
+			if sts[1] != nil {
+				outs = append(outs, Outcome{St: sts[1], Ret: Tuple{Str{}, en.newError(sts[1], "exit status 1")}})
+			}
+			if sts[2] != nil {
+				outs = append(outs, Outcome{St: sts[2], Ret: Tuple{Str{}, nilErr}})
+			}
+			return outs
+		}
+		en.abort("SafeCmdExecution(%s, ...) is not one of the modelled command forms", exe)
+		return nil
+	})
 	e.reg("os.Stat", func(c *CallCtx, st *State, args []Value) []Outcome {
 		en := c.E
 		p := en.pathArg(args[0], "os.Stat")
